@@ -16,7 +16,8 @@ BAG = {
     "kill": '<<"join","join","sub","sub","reg","call","tst","tst","kill","kill","msess","leave","pub">>',
     "hist": '<<"join","sub","unsub","pub","pub","pub","pub","hist","hist","hist","adv","leave">>',
     "disc": '<<"join","join","sub","sub","sub","pub","pub","pub","reg","reg","call","call","msess","leave">>',
-    "stall": '<<"join","sub","pub","pub","reg","reg","call","call","call","yield","yield","yield","stall","stall","resume","adv","adv">>',
+    "stall": '<<"join","sub","pub","pub","reg","reg","call","call","call","yield","yield","yield","stall","stall","resume","adv","adv","ckill","cancel">>',
+    "killx": '<<"join","join","sub","wsub","tst","tst","kill","kill","kill","leave","msess","pub">>',
     "stallburst": '<<"join","join","sub","sub","sub","stall","bpub","bpub","bpub","resume","pub","leave">>',
     "burst": '<<"join","join","sub","sub","sub","reg","pub","bpub","bpub","bpub","leave","bmix">>',
     "burstrpc": '<<"join","join","reg","reg","sub","call","yield","bmix">>',
@@ -100,15 +101,17 @@ PROPS = {
     "C11": dict(family="core", realms=True,
                 mc=dict(kinds=["join", "sub", "pub", "reg", "call", "yield", "leave", "kill"], inv=["TablesOK", "C05_NoTrace"],
                         quick=dict(steps=4, nsess=2), thorough=dict(steps=5, nsess=3)),
-                gen=[dict(bag="mixed", depth=14, quick=200, thorough=2400),
-                     dict(bag="kill", depth=14, quick=100, thorough=1200),
-                     dict(bag="meta", depth=14, quick=100, thorough=1200)],
+                gen=[dict(bag="mixed", depth=14, quick=160, thorough=2400),
+                     dict(bag="kill", depth=14, quick=80, thorough=1200),
+                     dict(bag="killx", depth=12, quick=160, thorough=2400),
+                     dict(bag="meta", depth=14, quick=80, thorough=1200)],
                 classes=["sess", "pubsub", "meta", "metaapi", "rpcreply", "rpcroute", "rpcintr", "snap"]),
     "C12": dict(family="core",
                 mc=dict(kinds=["join", "sub", "pub", "reg", "call", "leave", "disc"],
                         inv=["TablesOK", "C12_EventDisclosure", "C12_CallerDisclosure", "C12_RefusedDisclosure"],
                         quick=dict(steps=4, nsess=2), thorough=dict(steps=5, nsess=2)),
-                gen=[dict(bag="disc", depth=18, quick=220, thorough=3000),
+                gen=[dict(bag="disc", depth=18, quick=160, thorough=2000),
+                     dict(bag="disc", depth=16, quick=120, thorough=2000, mode="disc"),
                      dict(bag="hist", depth=16, quick=60, thorough=800, mode="hist")],
                 classes=["sess", "pubsub", "details", "meta", "metaapi", "rpcroute", "rpcreply"], poison=True),
     "C04": dict(family="hostile", classes=["sess", "pubsub", "rpcreply", "rpcroute", "rpcintr", "metaapi", "meta"]),
@@ -249,14 +252,25 @@ def distinct_shapes(evs):
 
 def corrupt_trace(evs):
     """binding self-test: remove one received message from the first step that
-    has one of the compared classes; the trace must then be rejected"""
+    has one of the compared classes; the trace must then be rejected (sessions
+    with a tiny queue may legitimately lose messages: not those)"""
     out = json.loads(json.dumps(evs))
+    small = set()
     for n, e in enumerate(out):
-        if e["ev"] == "step" and e["out"] and e["in"]["op"] not in ("join",):
-            e["out"][0]["m"] = e["out"][0]["m"][1:]
-            if not e["out"][0]["m"]:
-                e["out"] = e["out"][1:]
-            return out, n + 1
+        if e["ev"] != "step":
+            continue
+        if e["in"]["op"] == "join" and 0 < e["in"]["join"].get("q", 0) < 8:
+            small.add(e["in"]["s"])
+        if e["in"]["op"] == "hello" and 0 < e["in"]["hello"].get("q", 0) < 8:
+            small.add(e["in"]["s"])
+        if e["out"] and e["in"]["op"] not in ("join", "burst", "closerouter", "rmrealm"):
+            for k, so in enumerate(e["out"]):
+                if so["s"] in small or not so["m"]:
+                    continue
+                so["m"] = so["m"][1:]
+                if not so["m"]:
+                    del e["out"][k]
+                return out, n + 1
     return None, None
 
 
